@@ -75,6 +75,8 @@ def c18(rep, tier):
     r_fwd.run_lookup_keying(p, rep)
     r_scope.run_build(p, rep)
     r_scope.run_newruntime(p, rep)
+    # the failing form is the optional form plus an error: find never manufactures a value try_find did not produce
+    r_lookup.run_find_loud(p, rep)
     rep.analysed["config:all"] = {"bodies": len(p.fns)}
 
 
@@ -284,6 +286,7 @@ def c15(rep, tier):
     r_math.run_float_path(p, rep)
     r_views.run_cast(p, rep)
     r_table.run_filter_ops(p, rep, only=["math::"])
+    r_math.run_zero_test_operand(p, rep)
     rep.analysed["config:all"] = {"bodies": len(p.fns)}
 
 
@@ -357,6 +360,7 @@ def c07(rep, tier):
     p = P("all")
     g = grammar.load(facts.REPO)
     r_lookup.run_loud(p, rep)
+    r_lookup.run_find_loud(p, rep)
     r_lookup.run_overlay(p, rep)
     r_lookup.run_literal_verbatim(p, rep)
     r_lookup.run_noclamp(p, rep)
@@ -442,6 +446,7 @@ def c12(rep, tier):
     r_views.run_derived(p, rep)
     r_table.run_truth_table(p, rep)
     r_table.run_date_formats(p, rep)
+    r_table.run_state_use(p, rep, only=["deserialize_option"])
     r_table.run_subsec_selector(p, rep)
     rep.analysed["config:all"] = {"bodies": len(p.fns)}
 
